@@ -72,11 +72,15 @@ func invalidFrames(server bool, fragmented bool, r *rng) []rframe {
 func scriptFor(nUnits int, r *rng) string {
 	var script []string
 	for m := 0; m < nUnits; m++ {
-		switch r.intn(3) {
+		switch r.intn(5) {
 		case 0:
 			script = append(script, "nf", "ra", "st")
 		case 1:
 			script = append(script, "nf", fmt.Sprintf("r:%d", []int{1, 3, 512}[r.intn(3)]), fmt.Sprintf("r:%d", 1+r.intn(5)), "ra", "st")
+		case 2:
+			script = append(script, "nf", fmt.Sprintf("r:%d", []int{1, 2, 3, 5}[r.intn(4)]), "d", "st")
+		case 3:
+			script = append(script, "nf", "st", "ra", "st") // position right after NextFrame
 		default:
 			script = append(script, "nf", "d", "st")
 		}
@@ -131,6 +135,54 @@ func genC05(tier string, r *rng) {
 							run(fmt.Sprintf("rdr %d max:%d,inter %s %d E %s", st, lim, hx(enc), r.intn(4), scriptFor(nUnits, r)))
 						}
 					}
+					// the size limit applies to every frame, control frames included: limits below 125 with longer
+					// (legal) control frames, between messages and between fragments; position taken right after
+					for _, sz := range []int{5, 60, 125} {
+						for _, cop := range []ws.OpCode{ws.OpPing, ws.OpPong, ws.OpClose} {
+							pl := r.bytes(sz)
+							if cop == ws.OpClose {
+								pl = append([]byte{0x03, 0xe8}, []byte(strings.Repeat("r", sz-2))...)
+							}
+							fs := append(toRaw(pre, server), rframe{gframe{true, 0, cop, pl}, server},
+								rframe{gframe{true, 0, map[bool]ws.OpCode{true: ws.OpContinuation, false: ws.OpBinary}[open], []byte("AFTER")}, server})
+							enc := encodeRawStream(fs, r)
+							for _, lim := range []int{sz - 1, sz, sz + 1, 1} {
+								var script []string
+								for u := 0; u < npre; u++ {
+									script = append(script, "nf", "ra", "st")
+								}
+								if open {
+									script = append(script, "nf", "r:512", "r:512", "st", "ra", "st")
+								} else {
+									script = append(script, "nf", "st", "ra", "st", "nf", "ra", "st")
+								}
+								run(fmt.Sprintf("rdr %d max:%d,inter %s %d E %s", st, lim, hx(enc), r.intn(4), strings.Join(script, " ")))
+							}
+						}
+					}
+					// SkipHeaderCheck: the limit is the only guard; a control opcode announcing a huge length
+					{
+						mb := byte(0)
+						key := []byte{}
+						if server {
+							mb = 0x80
+							key = []byte{1, 2, 3, 4}
+						}
+						enc := encodeRawStream(toRaw(pre, server), r)
+						enc = append(enc, 0x89, 126|mb, 0x11, 0x70)
+						enc = append(enc, key...)
+						enc = append(enc, r.bytes(40)...)
+						var script []string
+						for u := 0; u < npre; u++ {
+							script = append(script, "nf", "ra", "st")
+						}
+						if open {
+							script = append(script, "nf", "r:512", "r:512", "st", "ra", "st")
+						} else {
+							script = append(script, "nf", "st", "ra", "st")
+						}
+						run(fmt.Sprintf("rdr %d skip,max:%d,inter %s %d E %s", st, []int{1024, 100, 4463}[r.intn(3)], hx(enc), r.intn(4), strings.Join(script, " ")))
+					}
 					// header with the top bit of the 64-bit length set
 					enc := encodeRawStream(toRaw(pre, server), r)
 					mb := byte(0)
@@ -168,8 +220,8 @@ func genC16r(tier string, r *rng) {
 		}
 		// every byte offset as EOF and as transport error
 		for cut := 0; cut <= len(enc); cut++ {
-			for _, fin := range []string{"E", "F"} {
-				if tier == "quick" && (cut+i)%2 == 0 && fin == "F" {
+			for fi, fin := range []string{"E", "F", "Ed", "Fd"} {
+				if tier == "quick" && (cut+i+fi)%2 == 0 && fin != "E" {
 					continue
 				}
 				emitReaderCases(st, enc[:cut], []int{0, 1, 5}[(cut+i)%3], fin, i, nm+1, "utf8,inter", r)
@@ -197,6 +249,18 @@ func genC07b(tier string, r *rng) {
 	for si, s := range samples {
 		for _, server := range []bool{true, false} {
 			st := sideOf(server)
+			// the whole text in ONE final frame (ReadMessage then uses a fixed buffer + io.ReadFull), alone and
+			// followed by another message, for every transport chunking up to the payload length
+			for k := 0; k <= len(s)+1 && k < 8; k++ {
+				for _, fin := range []string{"E", "Ed"} {
+					one := encodeStream([]gframe{{true, 0, ws.OpText, s}}, server, r)
+					two := encodeStream([]gframe{{true, 0, ws.OpText, s}, {true, 0, ws.OpText, []byte("z\xc3\xa9")}}, server, r)
+					run(fmt.Sprintf("rm %d %s %d %s", st, hx(one), k, fin))
+					run(fmt.Sprintf("rm %d %s %d %s", st, hx(two), k, fin))
+					run(fmt.Sprintf("rdd %d T %s %d %s %d", st, hx(two), k, fin, si))
+					run(fmt.Sprintf("rdr %d utf8 %s %d %s nf r:%d r:4096 st nf ra st", st, hx(two), k, fin, len(s)+1))
+				}
+			}
 			for a := 0; a <= len(s); a++ {
 				for b := a; b <= len(s); b++ {
 					if tier == "quick" && len(s) > 6 && (a+b+si)%3 != 0 {
